@@ -137,7 +137,10 @@ func (fs *FileSink) Process(_ context.Context, e *Event) (*Event, error) {
 	}
 
 	_, _ = reader.Seek(0, io.SeekStart)
-	_, err := reader.WriteTo(fs.f)
+	n, err := reader.WriteTo(fs.f)
+	if err == nil {
+		fs.BytesWritten += n
+	}
 	return nil, err
 }
 
